@@ -24,7 +24,7 @@ ASSUMPTIONS = [
     "Events are consumed by one consumer (`async for`); the harness owns gates inside the source and inside coroutine resolvers.",
     "Reference executor run once per event with the event as root value.",
 ]
-BUDGET = {"quick": 350, "thorough": 6000}
+BUDGET = {"quick": 600, "thorough": 6000}
 
 
 class EvWorld(RX.World):
